@@ -544,10 +544,14 @@ def run_shard(desc):
     counters = {"fired": 0, "blocked": 0, "readorder_compared": 0, "invalid_rejected": 0, "shortcircuit_cases": 0}
     violations, sigs, samples = [], set(), []
     n = 0
+    from vmon.render import release_library_caches
+
     for _ in range(desc["count"]):
         case = gen_case(rng)
         run_case(case, counters, violations, sigs, samples)
         n += 1
+        if n % 50 == 0:
+            release_library_caches()
     for _ in range(desc["invalid"]):
         run_invalid(gen_invalid(rng), counters, violations, rng.choice(["cond", "unless"]))
         n += 1
